@@ -1,1 +1,128 @@
-//! extension harness hx04
+//! extension harness hx04: operation futures and combinators of compio-runtime (check X04).
+//!
+//! A case is one root (outer combinator chain around a join of branches, each branch an inner chain around a
+//! leaf) plus the harness steps TLC generated for it (spec/Gen_OpFut.tla) with the model's expectation after
+//! every step. The root is polled by hand with a counting waker inside `Runtime::enter`, the driver is polled
+//! by hand, completions are caused by the harness (bytes on a socket pair, connections to a listener).
+pub mod leaf;
+pub mod root;
+
+use std::{
+    os::fd::{AsRawFd, FromRawFd, OwnedFd},
+    sync::{
+        Arc,
+        atomic::{AtomicUsize, Ordering},
+    },
+    task::{Context, Poll, Wake, Waker},
+};
+
+use compio_runtime::CancelToken;
+
+/// Root waker: counts every wake, from any thread.
+pub struct CountWaker(pub AtomicUsize);
+
+impl Wake for CountWaker {
+    fn wake(self: Arc<Self>) {
+        self.0.fetch_add(1, Ordering::SeqCst);
+    }
+
+    fn wake_by_ref(self: &Arc<Self>) {
+        self.0.fetch_add(1, Ordering::SeqCst);
+    }
+}
+
+pub fn count_waker() -> (Arc<CountWaker>, Waker) {
+    let cw = Arc::new(CountWaker(AtomicUsize::new(0)));
+    let w = Waker::from(cw.clone());
+    (cw, w)
+}
+
+pub fn socketpair() -> (OwnedFd, OwnedFd) {
+    let mut fds = [0i32; 2];
+    let r = unsafe {
+        libc::socketpair(
+            libc::AF_UNIX,
+            libc::SOCK_STREAM | libc::SOCK_NONBLOCK | libc::SOCK_CLOEXEC,
+            0,
+            fds.as_mut_ptr(),
+        )
+    };
+    assert_eq!(r, 0, "socketpair failed");
+    unsafe { (OwnedFd::from_raw_fd(fds[0]), OwnedFd::from_raw_fd(fds[1])) }
+}
+
+pub fn write_all(fd: &OwnedFd, data: &[u8]) -> bool {
+    let n = unsafe { libc::write(fd.as_raw_fd(), data.as_ptr() as _, data.len()) };
+    n == data.len() as isize
+}
+
+/// Bytes waiting unread in the receive queue of a socket.
+pub fn unread(fd: &OwnedFd) -> i32 {
+    let mut n: libc::c_int = 0;
+    let r = unsafe { libc::ioctl(fd.as_raw_fd(), libc::FIONREAD, &mut n) };
+    if r != 0 { -1 } else { n }
+}
+
+/// The cancel token the given context carries, as an index into `toks` (0 = none, 9 = an unknown token).
+/// `CancelToken::current()` is the public reading of `ContextExt::get_cancel`.
+pub fn seen_token(waker: &Waker, toks: &[CancelToken; 2]) -> i64 {
+    let mut cx = Context::from_waker(waker);
+    let mut f = std::pin::pin!(CancelToken::current());
+    match f.as_mut().poll(&mut cx) {
+        Poll::Ready(Some(t)) => {
+            if t == toks[0] {
+                1
+            } else if t == toks[1] {
+                2
+            } else {
+                9
+            }
+        }
+        Poll::Ready(None) => 0,
+        Poll::Pending => -9,
+    }
+}
+
+/// Same question asked on a thread that does not own the runtime: only "some / none" can be answered there
+/// (a token must never show up on a foreign thread).
+pub fn sees_some_token(waker: &Waker) -> bool {
+    let mut cx = Context::from_waker(waker);
+    let mut f = std::pin::pin!(CancelToken::current());
+    match f.as_mut().poll(&mut cx) {
+        Poll::Ready(Some(t)) => {
+            // the token is an Rc of the runtime thread: never drop it here
+            std::mem::forget(t);
+            true
+        }
+        _ => false,
+    }
+}
+
+/// Classification of an operation result in the vocabulary of the model.
+pub fn classify(r: &std::io::Result<usize>) -> String {
+    match r {
+        Ok(_) => "ok".into(),
+        Err(e) => match e.raw_os_error() {
+            Some(libc::ECANCELED) => "canc".into(),
+            Some(libc::EINVAL) => "einval".into(),
+            Some(c) => format!("err{c}"),
+            None => format!("err:{:?}", e.kind()),
+        },
+    }
+}
+
+/// Innermost token / personality of a path of wrapper names ("C1" "F2" "P1" ...), 0 = none.
+pub fn vis_tok(path: &[String]) -> i64 {
+    path.iter().rev().find(|w| !w.starts_with('P')).map(|w| wid(w)).unwrap_or(0)
+}
+
+pub fn vis_pers(path: &[String]) -> i64 {
+    path.iter().rev().find(|w| w.starts_with('P')).map(|w| wid(w)).unwrap_or(0)
+}
+
+pub fn wid(w: &str) -> i64 {
+    if w.ends_with('1') { 1 } else { 2 }
+}
+
+/// The personality id that is never registered with the ring.
+pub const BAD_PERSONALITY: u16 = 777;
